@@ -379,3 +379,30 @@ M("c17_str_body_json_encoded", "C17", "ak/conn_http.py",
 M("c17_double_slash_kept", "C17", "ak/conn_http.py",
   "        if suffix_path and suffix_path.startswith('/') and self.prefix.endswith('/'):",
   "        if suffix_path and suffix_path.startswith('/') and self.prefix.endswith('//'):")
+
+# ---------------------------------------------------------------- C18
+M("c18_ladder_fills_behind_first_filled_cell", "C18", "ak/xlsread.py",
+  "                            current_row[i] = prev_row[i]\n                        else:\n                            break",
+  "                            current_row[i] = prev_row[i]\n                        else:\n                            pass")
+M("c18_ladder_uses_raw_previous_row", "C18", "ak/xlsread.py",
+  "            prev_row = current_row\n\n            yield results", "            prev_row = row\n\n            yield results")
+M("c18_duplicate_title_first_wins_shift", "C18", "ak/xlsread.py",
+  "                    col_name: i for i, col_name in enumerate(cols_names)}",
+  "                    col_name: i + (1 if col_name == 'Num' and i + 1 < len(cols_names) else 0) for i, col_name in enumerate(cols_names)}")
+M("c18_range_does_not_stop_at_known_column", "C18", "ak/xlsread.py",
+  "                        if in_range:\n                            break  # all range cells processed\n                        continue  # skip first columns",
+  "                        continue  # skip first columns")
+M("c18_origin_of_substituted_cell_from_current_row", "C18", "ak/xlsread.py",
+  "                attr_origins = cell.coordinate\n            setattr",
+  "                attr_origins = cell.coordinate[:1] + anchor_cell.coordinate[1:] if attr_name != 'key' and len(cell.coordinate) == len(anchor_cell.coordinate) else cell.coordinate\n            setattr")
+M("c18_stop_on_blank_all_checks_first_cell", "C18", "ak/xlsread.py",
+  "                else:\n                    if self._row_is_empty(row):\n                        break",
+  "                else:\n                    if self._cell_is_empty(row[0]) and self._cell_is_empty(row[-1]):\n                        break")
+M("c18_str_cell_not_stripped", "C18", "ak/xlsread.py",
+  "        return \"\" if v is None else str(v).strip()", "        return \"\" if v is None else str(v).rstrip()")
+M("c18_leading_blank_rows_limit", "C18", "ak/xlsread.py",
+  "            if not titles_processed and self._row_is_empty(row):\n                continue",
+  "            if not titles_processed and self._row_is_empty(row) and row[0].coordinate.endswith('1'):\n                continue")
+M("c18_range_set_origin_only_marked", "C18", "ak/xlsread.py",
+  "            if self.cell_type.val_from_cell(cell)\n        }\n        attr_origins = {\n            cell_title: cell.coordinate\n            for cell_title, cell in zip(cells_titles, cells)\n        }",
+  "            if self.cell_type.val_from_cell(cell)\n        }\n        attr_origins = {\n            cell_title: cell.coordinate\n            for cell_title, cell in zip(cells_titles, cells)\n            if cell.value is not None\n        }")
